@@ -10,6 +10,7 @@ What `escape` guarantees about its output is proved in `Props/C17.lean` and reus
 import Pongo.Model.Exec
 import Pongo.Props.C17
 import Pongo.Gen.SafeSites
+import Pongo.Lemmas.CleanInterp
 
 namespace Pongo.C02
 open Pongo
@@ -131,6 +132,102 @@ theorem filter_of_unsafe_is_unsafe (name : Bytes) (i p r : V) (hi : i.safe = fal
 
 example : applyFilter b!"safe" ⟨.str b!"<b>", true⟩ ⟨.nil, false⟩ = .ok ⟨.str b!"<b>", true⟩ := by
   simp [applyFilter]
+
+/-! ### the whole interpreter: no context string reaches the output unescaped
+
+One simultaneous induction over the twenty functions of the interpreter (`Lemmas/CleanInterp.lean`)
+shows that the following invariant is kept by every expression and every node, for every fuel,
+state and context, on success and on failure:
+
+* the output is a concatenation of *clean chunks*: template text (`L`), the `escape` of something,
+  or the engine's own rendering of a value that is not text;
+* every `*Value` box in any context that is marked safe holds clean text (what a macro call or
+  `block.Super` rendered), an in-template list literal, or a byte of such text — so the safe flag
+  never sits on a context string;
+* `autoescape` is on in every context.
+
+The theorem covers the opt-out-free fragment `NodeOK`: no `safe` filter, no `autoescape off`,
+no Go function in the context, and — named limits of this proof — no `filter` tag (whose
+parameters are written raw: known finding D10), no `spaceless` and no lazily computed include
+name.  `L` is any predicate the literal text of the templates involved satisfies. -/
+
+section interpreter
+variable (T : LexTables) (cfg : SetCfg) (g : Env) (L : Bytes → Prop)
+
+/-- **Execution keeps the autoescape invariant**, whatever the template does and whether or not it
+    fails half-way (the unbuffered entry point is the one that shows partial output). -/
+theorem execution_keeps_autoescape_invariant (hg : EnvOK L g) (fuel ti : Nat) (ctx : Env) (hctx : EnvOK L ctx)
+    (σ : ES) (hσ : Inv L σ) :
+    Inv L (stateAfter ((executeTplUnbuffered T cfg g fuel ti ctx).run σ)) := by
+  have h := (allSat (T := T) (cfg := cfg) hg fuel).executeTplUnbuffered ti ctx hctx σ hσ
+  simp only [EStateM.run]
+  cases hr : executeTplUnbuffered T cfg g fuel ti ctx σ with
+  | ok a σ' => rw [hr] at h; exact h.1
+  | error e σ' => rw [hr] at h; exact h
+
+/-- a world of opt-out-free templates, an empty output: the start of an execution -/
+theorem initial_state_ok (cs : CState) (hw : WorldOK L cs) : Inv L { cs := cs } :=
+  ⟨Clean.nil L, (by intro f hf; cases hf), hw, (by intro e he; cases he)⟩
+
+/-- **Autoescape, end to end**: everything an execution writes — also what it wrote before failing —
+    is a concatenation of chunks each of which is literal text of a template, the `escape` of
+    something (no `<`, `>`, `"`, `'`; every `&` starts an entity), or the engine's own text for a
+    value that is not text.  No context string is among them. -/
+theorem output_is_clean (hg : EnvOK L g) (fuel ti : Nat) (ctx : Env) (hctx : EnvOK L ctx) (cs : CState) (hw : WorldOK L cs) :
+    ∃ chunks : List Bytes,
+      (stateAfter ((executeTplUnbuffered T cfg g fuel ti ctx).run { cs := cs })).out = chunks.flatten ∧
+      ∀ c ∈ chunks,
+        L c ∨
+        (∃ x, c = escapeHtml x ∧ (∀ b ∈ c, b ∉ C17.specials)) ∨
+        (∃ v : Val, v.isString = false ∧ v.isStringer = false ∧ c = v.toS) := by
+  obtain ⟨chunks, he, hc⟩ := (execution_keeps_autoescape_invariant T cfg g L hg fuel ti ctx hctx _ (initial_state_ok L cs hw)).hout
+  refine ⟨chunks, he, fun c hcm => ?_⟩
+  cases hc c hcm with
+  | lit _ h => exact Or.inl h
+  | esc x => exact Or.inr (Or.inl ⟨x, rfl, C17.escape_no_special x⟩)
+  | engine v h1 h2 => exact Or.inr (Or.inr ⟨v, h1, h2, rfl⟩)
+
+/-- the same for a single node and for a single expression, in any state the invariant holds in -/
+theorem node_keeps_autoescape_invariant (hg : EnvOK L g) (fuel : Nat) (n : Node) (hn : NodeOK L n) (σ : ES) (hσ : Inv L σ) :
+    Inv L (stateAfter ((execNode T cfg g fuel n).run σ)) := by
+  have h := (allSat (T := T) (cfg := cfg) hg fuel).execNode n hn σ hσ
+  simp only [EStateM.run]
+  cases hr : execNode T cfg g fuel n σ with
+  | ok a σ' => rw [hr] at h; exact h.1
+  | error e σ' => rw [hr] at h; exact h
+
+/-- **a value marked safe is never a context string**: whatever an opt-out-free expression
+    evaluates to, if it is marked safe it is clean text, a list literal or a byte of clean text -/
+theorem safe_values_are_clean (hg : EnvOK L g) (fuel : Nat) (e : Expr) (he : ExprOK e) (σ σ' : ES) (hσ : Inv L σ) (v : V)
+    (h : (eval T cfg g fuel e).run σ = .ok v σ') : v.safe = true → SafeShape L v.v := by
+  have h0 := (allSat (T := T) (cfg := cfg) hg fuel).eval e he σ hσ
+  simp only [EStateM.run] at h
+  rw [h] at h0
+  exact h0.2.2
+
+end interpreter
+
+-- non-vacuity: a template `<b>{{ x }}</b>` with `x` bound to markup in the context
+example :
+    let L : Bytes → Prop := fun c => c = b!"<b>" ∨ c = b!"</b>"
+    let tpl : Tpl := { (default : Tpl) with nodes :=
+      [.html b!"<b>" false false false false 0, .var (.var [.ident b!"x" none] ⟨1, 4⟩) ⟨1, 4⟩, .html b!"</b>" false false false false 0] }
+    NodesOK L tpl.nodes ∧ EnvOK L [(b!"x", Val.str b!"<script>")] := by
+  refine ⟨?_, ?_⟩
+  · intro n hn
+    simp only [List.mem_cons, List.not_mem_nil, or_false] at hn
+    rcases hn with rfl | rfl | rfl
+    · exact NodeOK.html _ _ _ _ _ _ (by intro tb lb; cases tb <;> cases lb <;> decide)
+    · exact NodeOK.var _ _ (ExprOK.var _ _ (by
+        intro p hp
+        simp only [List.mem_cons, List.not_mem_nil, or_false] at hp
+        subst hp
+        exact PartOK.ident _ _ (by intro args h; cases h)))
+    · exact NodeOK.html _ _ _ _ _ _ (by intro tb lb; cases tb <;> cases lb <;> decide)
+  · intro kv hkv
+    simp only [List.mem_cons, List.not_mem_nil, or_false] at hkv
+    subst hkv
+    exact ValOK.str _
 
 /-! ### regenerated from `/repo`: who may mark a value safe, who writes a value's text -/
 
